@@ -142,7 +142,9 @@ structure FlightOKH (h : Hist) : Prop where
   inflight : ∀ p, some p ∈ h.packets → p.inFlight = true → p.pathProbe = false ∧ p.ackEliciting = true
   nonneg : ∀ p, some p ∈ h.packets → 0 ≤ p.length
   count : h.numOutstanding = wsum outOf h.packets
-  probes : ∀ x ∈ h.probes, x.2.inFlight = false
+  /-- path probes are never counted in flight, and carry no StreamFrames (the path manager builds them
+      from PATH_CHALLENGE / PATH_RESPONSE / PADDING frames only) -/
+  probes : ∀ x ∈ h.probes, x.2.inFlight = false ∧ x.2.sframes = []
   /-- the slice never starts with a nil entry (so `Remove`'s "cleanup failed" check cannot fire) -/
   head : h.packets.head? ≠ some none
 
@@ -487,7 +489,7 @@ theorem doneSum_append (a b : List (PN × Packet)) : doneSum (a ++ b) = doneSum 
   | nil => simp [doneSum]
   | cons x xs ih => simp [doneSum, ih]; omega
 
-def ProbesOK (l : List (PN × Packet)) : Prop := ∀ x ∈ l, x.2.inFlight = false
+def ProbesOK (l : List (PN × Packet)) : Prop := ∀ x ∈ l, x.2.inFlight = false ∧ x.2.sframes = []
 
 theorem collect_probesOK (multi : Bool) (lowest largest : PN) (pk : List (Option Packet)) :
     ∀ (pn : PN) (rem : List Range) (probes stash : List (PN × Packet)) (acc : List PN), ProbesOK probes → ProbesOK stash →
@@ -559,7 +561,7 @@ theorem ackedLoop_flight (lvl : Level) (acc : List PN) :
             simp only []
             have hqz : flightOf q = 0 := by
               have := @removeProbe_fst_mem pn stash q (by rw [hq])
-              have := hs _ this
+              have := (hs _ this).1
               unfold flightOf; simp_all
             have hd' : ∀ x ∈ done ++ [(pn, q)], 0 ≤ flightOf x.2 := by
               intro x hx; simp only [List.mem_append, List.mem_singleton] at hx
@@ -863,7 +865,7 @@ theorem FlightOKH_sentPacket {h h' : Hist} {pn : PN} {p : Packet} (f : FlightOKH
   · rw [a, wsum_append]; simp
 
 theorem FlightOKH_sentPathProbePacket {h h' : Hist} {pn : PN} {p : Packet} (f : FlightOKH h) (e : h.sentPathProbePacket pn p = some h')
-    (h1 : p.inFlight = false) :
+    (h1 : p.inFlight = false) (h1' : p.sframes = []) :
     FlightOKH h' ∧ wsum flightOf h'.packets = wsum flightOf h.packets := by
   obtain ⟨a, b, c, _⟩ := sentPathProbePacket_spec e
   refine ⟨{ inflight := ?_, nonneg := ?_, count := ?_, probes := ?_, head := ?_ }, ?_⟩
@@ -879,7 +881,7 @@ theorem FlightOKH_sentPathProbePacket {h h' : Hist} {pn : PN} {p : Packet} (f : 
   · intro x hx; rw [b] at hx; simp at hx
     rcases hx with hx | hx
     · exact f.probes x hx
-    · subst hx; exact h1
+    · subst hx; exact ⟨h1, h1'⟩
   · rw [a]; exact head_append _ f.head (by simp)
   · rw [a, wsum_append]; simp [flightOf, dummyProbe]
 
@@ -887,7 +889,7 @@ theorem FInv_setTimer {s : State} (env : Env) (now : Time) (fi : FInv s) : FInv 
   ⟨⟨fi.1.ini, fi.1.hs, fi.1.app⟩, fi.2⟩
 
 theorem sentPacket_flight {s : State} {env : Env} {t : Time} {pn la : PN} {sframes frames : List Frame} {lvl : Level}
-    {size : Int} {mtu probe : Bool} (fi : FInv s) (hs : 0 ≤ size) :
+    {size : Int} {mtu probe : Bool} (fi : FInv s) (hs : 0 ≤ size) (hpr : probe = true → sframes = []) :
     ((s.sentPacket env t pn la sframes frames lvl size mtu probe).2 = .ok →
        FInv (s.sentPacket env t pn la sframes frames lvl size mtu probe).1) ∧
       Benign (s.sentPacket env t pn la sframes frames lvl size mtu probe).2 := by
@@ -911,7 +913,7 @@ theorem sentPacket_flight {s : State} {env : Env} {t : Time} {pn la : PN} {sfram
       | some h =>
         simp only []
         refine ⟨fun _ => ?_, Benign_ok⟩
-        obtain ⟨p1, p2⟩ := FlightOKH_sentPathProbePacket fsp hsp rfl
+        obtain ⟨p1, p2⟩ := FlightOKH_sentPathProbePacket fsp hsp rfl (hpr rfl)
         apply FInv_setTimer
         refine ⟨?_, ?_⟩
         · change FOK (State.setSpace _ lvl _)
@@ -1290,10 +1292,10 @@ theorem receivedPacket_flight {s : State} {env : Env} {l : Level} {t : Time} (fi
   · exact ⟨⟨fi.1.ini, fi.1.hs, fi.1.app⟩, fi.2⟩
   · exact fi
 
-/-- caller contract under which the accounting theorems hold: packet sizes are non-negative, and a Retry
-    arrives only while nothing is in flight in the Handshake space -/
+/-- caller contract under which the accounting theorems hold: packet sizes are non-negative, path-probe
+    packets carry no StreamFrames, and a Retry arrives only while nothing is in flight in the Handshake space -/
 def Valid (s : State) : Op → Prop
-  | .send _ _ _ size _ _ _ _ => 0 ≤ size
+  | .send _ _ _ size _ probe _ sframes => 0 ≤ size ∧ (probe = true → sframes = [])
   | .retry => spaceFlight s.handshake = 0
   | _ => True
 
@@ -1308,7 +1310,7 @@ theorem step_flight {s : State} {op : Op} {e : StepEnv} (fi : FInv s) (hv : Vali
     obtain ⟨p1, p2⟩ := @popPacketNumber_flight s lvl e.nts fi
     rcases popPacketNumber_res s lvl e.nts with hp | hp
     · simp only [hp]
-      exact sentPacket_flight (p1 hp) hv
+      exact sentPacket_flight (p1 hp) hv.1 hv.2
     · cases hr : (s.popPacketNumber lvl e.nts).2.res with
       | ok => simp [hr, Res.isPanic] at hp
       | err c => simp [hr, Res.isPanic] at hp
